@@ -36,6 +36,7 @@ type Contract struct {
 	Always   []*Clause // two-state invariants (entry state vs now) that must hold after every call made by the function
 	Decrs    []*Clause // loop N decreases EXPR
 	RetReqs  []*Clause // loop N return-requires EXPR
+	ExitReqs []*Clause // loop N exit-requires EXPR
 	CallReqs []*Clause // callsite CALLEE :: EXPR (Callee in Clause.Callee)
 	Steps    []*Clause // guarantee of every single call made by the function (state before that call vs after it)
 	Invs     []*Clause
@@ -310,6 +311,14 @@ func (sp *Specs) parseContractFile(path string, pkgPath string) error {
 					cl.Kind = "return-requires"
 					cl.Expr = strings.TrimSpace(strings.SplitN(body, "return-requires", 2)[1])
 					cur.RetReqs = append(cur.RetReqs, cl)
+					break
+				}
+				if len(lf) >= 3 && lf[1] == "exit-requires" {
+					// loop N exit-requires EXPR: leaving loop N from inside its body (break, return, goto) needs EXPR
+					fmt.Sscanf(lf[0], "%d", &cl.Loop)
+					cl.Kind = "exit-requires"
+					cl.Expr = strings.TrimSpace(strings.SplitN(body, "exit-requires", 2)[1])
+					cur.ExitReqs = append(cur.ExitReqs, cl)
 					break
 				}
 				if len(lf) >= 3 && lf[1] == "decreases" {
